@@ -275,6 +275,11 @@ def run(rep, db, tier, seed):
     handle('stream-count negotiation (Mux::spawn_streams)', check_spawn)
     handle('inbound frame step (Mux::process_inbound_frames): isolation, piece sizes, intake flow control', check_dispatch)
     try:
+        from props import c14_handshake
+        c14_handshake.run(rep, db, tier)
+    except Exception as u:
+        rep.add(Obligation('mux handshake / verify', 'inconclusive', f'{type(u).__name__}: {u}'[:600]))
+    try:
         from props import c14_reusable
         c14_reusable.run(rep, db, tier)
     except Exception as u:
